@@ -16,7 +16,7 @@ namespace HandlerTL
 open Callbacks Extracted.Locations TLocal Extracted.ThreadLocal
 
 /-- the handler's default provider: `lambda: deque()` -/
-def dq : Nat → Option (List Ctx) := fun _ => some []
+def dq : Nat → Option (Option (List Ctx)) := fun _ => some (some [])
 
 def embSlot (s : Option (List Ctx)) : Slot (List Ctx) := s.map some
 
